@@ -197,6 +197,26 @@ def boundary_inputs():
             for closer in ('}"', '"', '}', '', "}'"):
                 out['escape_zoo_%d' % k] = 'print(1);\nprint(' + opener + payload + closer + ');\nprint(2);'
                 k += 1
+    # oversized forward/backward distances for every instruction that carries one, with both branch directions taken;
+    # EXPECT below says what the program prints if the front end accepts it
+    pad_stmt = '    x = x + 1;\n'
+    big = 9000            # 9000 * (>= 8 bytes) > 65535
+    long_sum = ' + '.join('1' for _ in range(25000))
+    out['big_if_false'] = 'fn f(c) {\n  let x = 0;\n  if c {\n' + pad_stmt * big + '  }\n  return x;\n}\nprint(f(false));\n'
+    out['big_else'] = ('fn f(c) {\n  let x = 0;\n  if c {\n    x = 7;\n  } else {\n' + pad_stmt * big + '  }\n  return x;\n}\n'
+                       'print(f(true));\nprint(f(false));\n')
+    out['big_while_skipped'] = 'fn f() {\n  let x = 0;\n  while x > 0 {\n' + pad_stmt * big + '  }\n  return x;\n}\nprint(f());\n'
+    out['big_and_false'] = 'fn f(c) { return c && (' + long_sum + '); }\nprint(f(false));\nprint(f(true));\n'
+    out['big_or_true'] = 'fn f(c) { return c || (' + long_sum + '); }\nprint(f(5));\nprint(f(nil));\n'
+    out['big_ternary'] = 'fn f(c) { return c ? (' + long_sum + ') : 2; }\nprint(f(false));\nprint(f(true));\n'
+    out['big_ternary_else'] = 'fn f(c) { return c ? 2 : (' + long_sum + '); }\nprint(f(true));\nprint(f(false));\n'
+    out['big_for'] = 'fn f() {\n  let x = 0;\n  for i in 2.times() {\n' + pad_stmt * big + '  }\n  return x;\n}\nprint(f());\n'
+    out['big_catch'] = ('fn f() {\n  let x = 0;\n  try {\n    x = nil - 1;\n  } catch e: Error {\n' + pad_stmt * big +
+                        '  }\n  return x;\n}\nprint(f());\n')
+    out['big_continue'] = ('fn f() {\n  let x = 0;\n  let i = 0;\n  while i < 3 {\n    i = i + 1;\n    if i == 2 { continue; }\n' +
+                           pad_stmt * big + '  }\n  return x;\n}\nprint(f());\n')
+    out['big_break'] = ('fn f() {\n  let x = 0;\n  while true {\n    if x == 0 { x = 1; } else { break; }\n' + pad_stmt * big +
+                        '  }\n  return x;\n}\nprint(f());\n')
     for name, text in [('unterminated_interp', 'print("a${");'), ('unterminated_interp2', 'print("a${"b${'),
                        ('unterminated_str', 'print("abc'), ('nul_bytes', 'print(1);\x00\x00print(2);'),
                        ('bom', '﻿print(1);'), ('invalid_escape', 'print("\\q");'),
@@ -208,3 +228,19 @@ def boundary_inputs():
                        ('crlf', 'print(1);\r\nprint("a\r\nb");\r\n'), ('semicolons', ';;;;'), ('dollar', 'print("$");print("$$ {");')]:
         out[name] = text
     return out
+
+
+# what an ACCEPTED boundary program must print (one line per print). A front end that accepts the text but builds a
+# program that prints something else (a truncated jump, a wrapped operand) has not "produced a runnable program".
+EXPECT = {
+    'big_jump': ['9000'], 'big_loop': ['9000'], 'big_try': ['9000'], 'big_and': ['25000'],
+    'big_if_false': ['0'], 'big_else': ['7', '9000'], 'big_while_skipped': ['0'],
+    'big_and_false': ['false', '25000'], 'big_or_true': ['5', '25000'], 'big_ternary': ['2', '25000'],
+    'big_ternary_else': ['2', '25000'], 'big_for': ['18000'], 'big_catch': ['9000'], 'big_continue': ['18000'],
+    'big_break': ['9001'],
+    'deep_parens': ['1'], 'deep_unary': ['1'], 'deep_not': ['true'], 'deep_blocks': ['1'], 'deep_while': ['1'],
+    'deep_calls': ['1'], 'deep_ternary': ['1'], 'deep_binary_right': ['257'], 'long_binary_left': ['5001'],
+    'locals_254': ['0'], 'block_locals_254': ['1'], 'loop_locals_254': ['1'], 'module_syms_300': ['299'],
+    'methods_300': ['299'], 'elif_chain_250': ['5'], 'constants_65535': ['65535'], 'list_elems_70000': ['70000'],
+    'tuple_elems_70000': ['70000'], 'map_elems_40000': ['40000'],
+}
